@@ -36,6 +36,7 @@ type rawRec struct {
 	canon  []string // canonical content, computed at trace time (only when the node asks for it)
 	size   int
 	inSend bool // traced from inside GossipSubRouter.sendRPC
+	qfull  bool // (drop records) the peer's outbound queue was full or gone when the drop was traced
 }
 
 type simSub struct {
@@ -164,6 +165,13 @@ func (r rawTap) DropRPC(rpc *RPC, p peer.ID) {
 	rec := rawRec{kind: "drop", p: p, rpc: rpc}
 	if r.n.canonRPC {
 		rec.canon, rec.size, rec.inSend = canonRPC(&rpc.RPC), rpc.Size(), stackHas("GossipSubRouter).sendRPC")
+		// traced on the event-loop goroutine, which owns the peers map
+		rec.qfull = true
+		if q := r.n.ps.peers[p]; q != nil {
+			q.queueMu.Lock()
+			rec.qfull = q.closed || q.queue.Len() >= q.maxSize
+			q.queueMu.Unlock()
+		}
 	}
 	r.add(rec)
 }
@@ -336,6 +344,7 @@ func (s *sim) teardown() {
 	for _, n := range s.nodes {
 		n.cancel()
 	}
+	s.releaseWriters()
 	// release parked application callbacks
 	for _, g := range s.parkedGates() {
 		s.release(g, -1)
@@ -380,7 +389,7 @@ func (s *sim) teardown() {
 	for len(s.evq) > 0 {
 		e := s.evq[0]
 		s.evq = s.evq[1:]
-		if len(e.tag) > 13 && e.tag[:13] == "open-complete" {
+		if len(e.tag) > 13 && (e.tag[:13] == "open-complete" || e.tag[:13] == "writer-takes ") {
 			e.run()
 		}
 	}
@@ -399,4 +408,54 @@ func (s *sim) teardown() {
 		}
 	}
 	synctestWait()
+}
+
+
+// stateSummary (debugging aid, read at quiescence): peers, topic knowledge, mesh, back-off.
+func (n *simNode) stateSummary() string {
+	ps := n.ps
+	var b []string
+	var peers []string
+	for p := range ps.peers {
+		peers = append(peers, shortPeer(p))
+	}
+	sort.Strings(peers)
+	b = append(b, fmt.Sprintf("%s peers=%v", n.name, peers))
+	var ts []string
+	for t, m := range ps.topics {
+		var l []string
+		for p := range m {
+			l = append(l, shortPeer(p))
+		}
+		sort.Strings(l)
+		ts = append(ts, fmt.Sprintf("%s:%v", t, l))
+	}
+	sort.Strings(ts)
+	b = append(b, fmt.Sprintf("topics=%v", ts))
+	if gs := n.gs(); gs != nil {
+		var ms []string
+		for t, m := range gs.mesh {
+			var l []string
+			for p := range m {
+				l = append(l, shortPeer(p))
+			}
+			sort.Strings(l)
+			ms = append(ms, fmt.Sprintf("%s:%v", t, l))
+		}
+		sort.Strings(ms)
+		var bo []string
+		for t, m := range gs.backoff {
+			for p := range m {
+				bo = append(bo, t+"/"+shortPeer(p))
+			}
+		}
+		sort.Strings(bo)
+		var gp []string
+		for p := range gs.peers {
+			gp = append(gp, shortPeer(p))
+		}
+		sort.Strings(gp)
+		b = append(b, fmt.Sprintf("gspeers=%v mesh=%v backoff=%v", gp, ms, bo))
+	}
+	return fmt.Sprint(b)
 }
